@@ -166,4 +166,4 @@ def parse_address(address):
 
 
 def format_address(host, portno):
-    return f'{host}{portno:d}'
+    return f'{host}:{portno:d}'
